@@ -253,6 +253,13 @@ def explore_run(kind, script_name, chooser):
                 acts.append(('cut',))
             if not lclosed and w.listener is not None:
                 acts.append(('lclose',))
+            if not dl and not cut and closed_by is None and not viol:
+                # nothing in flight: a half-close made so far has reached the other application, while the
+                # other direction is still open (a server that answers only after the request's EOF would
+                # otherwise wait for ever)
+                for src, dst_end in (('A', w.B()), ('B', w.A)):
+                    if eof_sent[src] and dst_end is not None and dst_end.t is not None and not dst_end.eof and not dst_end.lost:
+                        viol.append(('eof-not-propagated', '%s half-closed and everything in flight was delivered, the other end has not seen EOF' % src))
             if dl:
                 menu = [('d', t) for t in dl] + acts
             elif pending_actions:
